@@ -360,7 +360,14 @@ class Matrix3(Matrix):
         # Rotate a scalar, returning the scalar unchanged except for new derivs
         if arg._nrank_ == 0:
             if not recursive:
-                return arg.wod
+                arg = arg.wod
+
+            # The leading shapes broadcast as in any other product; incompatible
+            # shapes raise a ValueError
+            shape = Qube.broadcasted_shape(self._shape_, arg._shape_)
+            if shape != arg._shape_:
+                arg = arg.broadcast_to(shape, _protected=False).copy()
+
             return arg
 
         # For every other purpose, use the default multiply
